@@ -9,5 +9,11 @@ git -C /repo worktree add -q --detach "$wt" HEAD || exit 2
 /venv/bin/python "$dir/demo.py" "$wt" > /tmp/mt/confirm-$tag.mut.out 2>&1; m=$?
 ( cd "$wt" && PYTHONPATH="$wt" /venv/bin/python -m src.cli --help >/dev/null 2>&1 ); h=$?
 t=$( cd "$wt" && env -u THAILINT_VERIF /venv/bin/python -m pytest -q -p no:cacheprovider --no-cov --timeout=900 -x --maxfail=30 2>&1 | tee /tmp/mt/confirm-$tag.pytest.log | tail -1 )
+case "$t" in *"10 failed, 2116 passed"*) ;; *)
+  # a wall-clock assertion (tests/integration/test_performance.py) fails on any tree when the machine is loaded: rerun the
+  # tests that failed beyond the 10 known ones on their own
+  extra=$(grep '^FAILED' /tmp/mt/confirm-$tag.pytest.log | grep -v 'docker\|real_world\|unreadable' | sed 's/^FAILED //; s/ - .*//' | tr '\n' ' ')
+  if [ -n "$extra" ]; then r=$( cd "$wt" && env -u THAILINT_VERIF /venv/bin/python -m pytest -q -p no:cacheprovider --no-cov $extra 2>&1 | tail -1 ); t="$t; rerun alone of [$extra]: $r"; fi ;;
+esac
 echo "$tag demo_clean=$c demo_mutant=$m help=$h files=$(cd $wt && git diff --name-only | tr '\n' ' ') suite=[$t]"
 git -C /repo worktree remove --force "$wt"
